@@ -92,13 +92,15 @@ theorem psc_minimal_try (ht : env.traceMode = false) (hinfo : ∃ a ∈ A, (ops.
   · simp only [if_true, iter_loopInit_st, members_map]
 
 /-- **All tries fail ⇒ loud failure after exactly `max_tries` tries**: if after each of the tries `0 … max_tries-1` some
-member still has `info ≠ 0`, the function raises — `NotPSDError` when `max_tries > 0` — after `max_tries + 1` calls and
-`max_tries` warnings; the caller's tensor is untouched.  (For `max_tries = 0` see `psc_max_tries_zero_counterexample`.) -/
+member still has `info ≠ 0`, the function raises after `max_tries + 1` calls and `max_tries` warnings and the caller's
+tensor is untouched.  The exception is `NotPSDError` when `max_tries > 0`, or when the source binds `jitter_new` before the
+loop (`c.jitterNewBound`, extracted; false today — see `psc_max_tries_zero_counterexample`; true after notes/C16_fix_1.diff).
+FULL CLAIM (not provable of the code as it is): the exception is always `NotPSDError`. -/
 theorem psc_all_fail_raises_partial (ht : env.traceMode = false) (hinfo : ∃ a ∈ A, (ops.cholEx a).2 ≠ 0)
     (hnan : ∀ a ∈ A, ops.hasNan a = false)
     (hfail : ∀ j, j < effMaxTries env args → batchFailsAfter ops c.base (effJitter env args) A j = true) :
     let o := psdSafeCholesky ops c env args A
-    o.result = .error (if effMaxTries env args = 0 then .unboundLocalError else .notPSDError) ∧
+    o.result = .error (if effMaxTries env args = 0 ∧ c.jitterNewBound = false then .unboundLocalError else .notPSDError) ∧
     o.calls = effMaxTries env args + 1 ∧
     o.warns = (List.range (effMaxTries env args)).map (jitterAt c.base (effJitter env args)) ∧
     (c.clones = true → o.input = A) := by
@@ -116,6 +118,7 @@ theorem psc_all_fail_raises_partial (ht : env.traceMode = false) (hinfo : ∃ a 
   simp only [hl]
   refine ⟨?_, ?_, ?_, fun h => by simp [h]⟩
   · simp only [Nat.zero_add, Except.map, Bool.false_eq_true, if_false]
+    cases c.jitterNewBound <;> simp
   · simp only [Nat.zero_add, iter_calls, loopInit_calls, Bool.false_eq_true, if_false]; omega
   · simp only [Nat.zero_add, iter_warns, loopInit_warns, List.nil_append, Bool.false_eq_true, if_false]
 
@@ -161,6 +164,75 @@ theorem psc_warns_iff_jitter (ht : env.traceMode = false) :
   · unfold psdSafeCholeskyCore
     simp only [Bool.not_eq_true] at hany
     simp [hany]
+
+/-- **The returned factors are `cholesky_ex` of exactly the final perturbed batch, and all of them succeeded** — for every
+input, configuration and info history: whenever the function returns (outside trace mode), the `b`-th returned factor is
+(the transpose, if `upper`, of) `cholesky_ex(Aprime_b).L` and `cholesky_ex(Aprime_b).info = 0`.  With the contract
+"`info = 0` ⇒ the factor is finite" this is "never returns a factor containing NaN or Inf" (`psc_no_nan_out`). -/
+theorem psc_result_is_factor_of_work (ht : env.traceMode = false) (ls : List F)
+    (h : (psdSafeCholesky ops c env args A).result = .ok ls) :
+    ls = (psdSafeCholesky ops c env args A).work.map (fun w => orient ops args.upper (ops.cholEx w).1) ∧
+    ∀ w ∈ (psdSafeCholesky ops c env args A).work, (ops.cholEx w).2 = 0 := by
+  rw [wrapper_result] at h
+  rw [wrapper_work]
+  by_cases hany : anyInfo (A.map (initMember ops)) = true
+  · by_cases hn : A.any ops.hasNan = false
+    · rw [core_of_loop ops c env args A ht hany hn] at h ⊢
+      obtain ⟨t, _, h1, _, _⟩ := tryLoop_general ops c.base (effJitter env args) (loopInit ops A) (effMaxTries env args) 0
+      have h2 := tryLoop_true_anyInfo ops c.base (effJitter env args) (effMaxTries env args) 0 (loopInit ops A)
+      simp only [Nat.zero_add, iter_zero] at h1
+      simp only [iter_zero] at h ⊢
+      rcases Bool.eq_false_or_eq_true (tryLoop ops c.base (effJitter env args) (effMaxTries env args) 0 (loopInit ops A)).1 with hr | hr
+      · have h3 := h2 hr
+        simp only [hr, if_true, Except.map, Except.ok.injEq] at h
+        simp only [hr, if_true]
+        rw [h1, iter_loopInit_st] at h3
+        rw [h1, iter_loopInit_st] at h ⊢
+        rw [anyInfo_false_iff] at h3
+        rw [factors_map] at h
+        rw [members_map]
+        refine ⟨?_, ?_⟩
+        · rw [← h, List.map_map, List.map_map]
+          apply List.map_congr_left
+          intro a _
+          simp only [Function.comp_def, memberAfter_consistent ops c.base (effJitter env args) a t]
+        · intro w hw
+          obtain ⟨a, ha, rfl⟩ := List.mem_map.1 hw
+          have := h3 _ (List.mem_map.2 ⟨a, ha, rfl⟩)
+          rw [memberAfter_consistent] at this
+          exact this
+      · simp [hr, Except.map] at h
+    · exfalso
+      revert h
+      unfold psdSafeCholeskyCore
+      simp only [Bool.not_eq_false] at hn
+      simp [ht, hany, hn, Except.map]
+  · simp only [Bool.not_eq_true] at hany
+    have hz := (anyInfo_false_iff _).1 hany
+    revert h
+    unfold psdSafeCholeskyCore
+    simp only [hany, Bool.not_false, Bool.or_true, if_true, Except.map, Except.ok.injEq, factors_map, List.map_map]
+    intro h
+    refine ⟨?_, fun w hw => hz _ (List.mem_map.2 ⟨w, hw, rfl⟩)⟩
+    rw [← h]
+    apply List.map_congr_left
+    intro a _
+    simp [Function.comp_def, initMember]
+
+/-- **Never a factor containing NaN or Inf**: if `cholesky_ex` returns finite factors whenever `info = 0` and transposition
+keeps factors finite, every factor the function returns (outside trace mode) is finite. -/
+theorem psc_no_nan_out (ht : env.traceMode = false) (Finite : F → Prop)
+    (hfin : ∀ w, (ops.cholEx w).2 = 0 → Finite (ops.cholEx w).1) (htr : ∀ l, Finite l → Finite (ops.transposeF l))
+    (ls : List F) (h : (psdSafeCholesky ops c env args A).result = .ok ls) : ∀ l ∈ ls, Finite l := by
+  obtain ⟨h1, h2⟩ := psc_result_is_factor_of_work ops c env args A ht ls h
+  intro l hl
+  rw [h1] at hl
+  obtain ⟨w, hw, rfl⟩ := List.mem_map.1 hl
+  have := hfin w (h2 w hw)
+  unfold orient
+  split
+  · exact htr _ this
+  · exact this
 
 /-- **`upper=True` returns the transposes of the lower factors** and changes nothing else. -/
 theorem psc_upper :
@@ -352,9 +424,20 @@ theorem gen_defaults :
     C16.wrapperParams = [("A", "<required>"), ("upper", "False"), ("out", "None"), ("jitter", "None"), ("max_tries", "None")] := by
   decide +kernel
 
+/-- Corollary: with `max_tries > 0` (or `jitter_new` bound) the loud failure is `NotPSDError`. -/
+theorem psc_all_fail_raises (ht : env.traceMode = false) (hinfo : ∃ a ∈ A, (ops.cholEx a).2 ≠ 0)
+    (hnan : ∀ a ∈ A, ops.hasNan a = false) (hpos : 0 < effMaxTries env args ∨ c.jitterNewBound = true)
+    (hfail : ∀ j, j < effMaxTries env args → batchFailsAfter ops c.base (effJitter env args) A j = true) :
+    (psdSafeCholesky ops c env args A).result = .error .notPSDError := by
+  have h := (psc_all_fail_raises_partial ops c env args A ht hinfo hnan hfail).1
+  rw [h]
+  rcases hpos with hp | hb
+  · rw [if_neg (fun hh => by omega)]
+  · rw [if_neg (fun hh => by simp [hb] at hh)]
+
 /-- The input-immutability theorem applies to today's source. -/
 theorem psc_input_unchanged_generated (base : Nat) :
-    (psdSafeCholesky ops { base := base, clones := C16.clones } env args A).input = A :=
+    (psdSafeCholesky ops { base := base, clones := C16.clones, jitterNewBound := C16.jitterNewBound } env args A).input = A :=
   psc_input_unchanged ops _ env args A gen_clones.1
 
 /-! ### The hypotheses are satisfiable by non-trivial instances -/
